@@ -148,14 +148,14 @@ F = 'src/shell.rs'
 TYRW = [Rw('types::Job', 'Job', required=False, rule='R0')]
 
 SCAN_INV = [
-    ('C06.inv.scan_range', '1 <= i <= 65535'),
-    ('C06.inv.scan_frame', 'self.jobs@ == old(self).jobs@ && wf(self.jobs@)'),
-    ('C06.inv.scan_nomatch', 'forall|k: i32| 1 <= k < i && #[trigger] self.jobs@.contains_key(k) ==> self.jobs@[k].gid != gid'),
+    ('C06+C07.inv.scan_range', '1 <= i <= 65535'),
+    ('C06+C07.inv.scan_frame', 'self.jobs@ == old(self).jobs@ && wf(self.jobs@)'),
+    ('C06+C07.inv.scan_nomatch', 'forall|k: i32| 1 <= k < i && #[trigger] self.jobs@.contains_key(k) ==> self.jobs@[k].gid != gid'),
 ]
 
 
-SCAN_IEB = [('C06.inv.scan_lt', 'i < 65535')]
-SCAN_ENS = [('C06.inv.scan_done', 'i == 65535')]
+SCAN_IEB = [('C06+C07.inv.scan_lt', 'i < 65535')]
+SCAN_ENS = [('C06+C07.inv.scan_done', 'i == 65535')]
 
 
 def scan_loop(extra=(), extra_ens=()):
@@ -166,7 +166,7 @@ all_members_stopped = Fn('src/types.rs', 'all_members_stopped', impl='Job', ret=
     ensures=[('C06+C07.all_stopped_def', 'r == (forall|i: int| 0 <= i < self.pids@.len() ==> self.pids_stopped@.contains(#[trigger] self.pids@[i]))')],
     loops={0: Loop(invariant=[('C06+C07.inv.all_stopped', 'forall|i: int| 0 <= i < __i0 ==> self.pids_stopped@.contains(#[trigger] self.pids@[i])')])})
 all_members_running = Fn('src/types.rs', 'all_members_running', impl='Job', ret='r',
-    ensures=[('C06.all_running_def', 'r == (self.pids_stopped@.len() == 0)')])
+    ensures=[('C06+C07.all_running_def', 'r == (self.pids_stopped@.len() == 0)')])
 
 insert_job = Fn(F, 'insert_job', impl='Shell', rewrites=TYRW,
     requires=[
@@ -176,12 +176,12 @@ insert_job = Fn(F, 'insert_job', impl='Shell', rewrites=TYRW,
         ('C06.pre.pid_fresh', 'forall|k: i32| old(self).jobs@.contains_key(k) && #[trigger] old(self).jobs@[k].gid == gid ==> !old(self).jobs@[k].pids@.contains(pid)'),
     ],
     ensures=[
-        ('C06.insert.wf', 'wf(final(self).jobs@)'),
-        ('C06.insert.same_group_appends',
+        ('C06+C07.insert.wf', 'wf(final(self).jobs@)'),
+        ('C06+C07.insert.same_group_appends',
          'has_gid(old(self).jobs@, gid) ==> exists|k: i32| old(self).jobs@.contains_key(k) && #[trigger] old(self).jobs@[k].gid == gid '
          '&& final(self).jobs@.contains_key(k) && same_but(final(self).jobs@, old(self).jobs@, k) '
          '&& final(self).jobs@[k].pids@ == old(self).jobs@[k].pids@.push(pid) && job_eq_except_cmd_pids(final(self).jobs@[k], old(self).jobs@[k])'),
-        ('C06.insert.new_job_smallest_free_id',
+        ('C06+C07.insert.new_job_smallest_free_id',
          '!has_gid(old(self).jobs@, gid) ==> exists|k: i32| #![trigger old(self).jobs@.contains_key(k)] #![trigger final(self).jobs@.contains_key(k)] '
          '1 <= k && !old(self).jobs@.contains_key(k) && prefix_full(old(self).jobs@, k as int) '
          '&& final(self).jobs@.contains_key(k) && same_but(final(self).jobs@, old(self).jobs@, k) '
@@ -189,23 +189,23 @@ insert_job = Fn(F, 'insert_job', impl='Shell', rewrites=TYRW,
          '&& final(self).jobs@[k].pids_stopped@ =~= Set::<i32>::empty() && final(self).jobs@[k].status@ == status@ && final(self).jobs@[k].is_bg == bg'),
     ],
     loops={0: Loop(invariant=[
-        ('C06.inv.ins_range', '1 <= i <= 65535'),
-        ('C06.inv.ins_frame', 'self.jobs@ == old(self).jobs@ && wf(self.jobs@) && self.jobs@.dom().len() < 65533'),
-        ('C06.inv.ins_prefix', 'prefix_full(self.jobs@, i as int)'),
-        ('C06.inv.ins_pre1', 'forall|k: i32| self.jobs@.contains_key(k) && #[trigger] self.jobs@[k].gid == gid ==> prefix_full(self.jobs@, k as int)'),
-        ('C06.inv.ins_pre2', 'forall|k: i32| self.jobs@.contains_key(k) && #[trigger] self.jobs@[k].gid == gid ==> !self.jobs@[k].pids@.contains(pid)'),
-        ('C06.inv.ins_nomatch', 'forall|k: i32| 1 <= k < i && #[trigger] self.jobs@.contains_key(k) ==> self.jobs@[k].gid != gid'),
+        ('C06+C07.inv.ins_range', '1 <= i <= 65535'),
+        ('C06+C07.inv.ins_frame', 'self.jobs@ == old(self).jobs@ && wf(self.jobs@) && self.jobs@.dom().len() < 65533'),
+        ('C06+C07.inv.ins_prefix', 'prefix_full(self.jobs@, i as int)'),
+        ('C06+C07.inv.ins_pre1', 'forall|k: i32| self.jobs@.contains_key(k) && #[trigger] self.jobs@[k].gid == gid ==> prefix_full(self.jobs@, k as int)'),
+        ('C06+C07.inv.ins_pre2', 'forall|k: i32| self.jobs@.contains_key(k) && #[trigger] self.jobs@[k].gid == gid ==> !self.jobs@[k].pids@.contains(pid)'),
+        ('C06+C07.inv.ins_nomatch', 'forall|k: i32| 1 <= k < i && #[trigger] self.jobs@.contains_key(k) ==> self.jobs@[k].gid != gid'),
     ], decreases='65535 - i')},
     hints={'loop-0-body-entry': 'lemma_prefix_len(self.jobs@, i as int);'},
     let_types={'i': 'i32'})
 
 get_job_by_id = Fn(F, 'get_job_by_id', impl='Shell', rewrites=TYRW, ret='r',
-    ensures=[('C06.get_by_id', 'match r { Some(j) => self.jobs@.contains_key(job_id) && *j == self.jobs@[job_id], None => !self.jobs@.contains_key(job_id) }')])
+    ensures=[('C06+C07.get_by_id', 'match r { Some(j) => self.jobs@.contains_key(job_id) && *j == self.jobs@[job_id], None => !self.jobs@.contains_key(job_id) }')])
 
 get_job_by_gid = Fn(F, 'get_job_by_gid', impl='Shell', rewrites=TYRW, ret='r',
     requires=[('C06.pre.wf', 'wf(self.jobs@)')],
-    ensures=[('C06.get_by_gid', 'match r { Some(j) => exists|k: i32| self.jobs@.contains_key(k) && #[trigger] self.jobs@[k].gid == gid && *j == self.jobs@[k], None => !has_gid(self.jobs@, gid) }')],
-    loops={0: Loop(invariant=[SCAN_INV[0], ('C06.inv.scan_wf', 'wf(self.jobs@)'), ('C06.inv.scan_nomatch', 'forall|k: i32| 1 <= k < i && #[trigger] self.jobs@.contains_key(k) ==> self.jobs@[k].gid != gid')],
+    ensures=[('C06+C07.get_by_gid', 'match r { Some(j) => exists|k: i32| self.jobs@.contains_key(k) && #[trigger] self.jobs@[k].gid == gid && *j == self.jobs@[k], None => !has_gid(self.jobs@, gid) }')],
+    loops={0: Loop(invariant=[SCAN_INV[0], ('C06+C07.inv.scan_wf', 'wf(self.jobs@)'), ('C06+C07.inv.scan_nomatch', 'forall|k: i32| 1 <= k < i && #[trigger] self.jobs@.contains_key(k) ==> self.jobs@[k].gid != gid')],
                    invariant_except_break=SCAN_IEB, ensures=SCAN_ENS, decreases='65535 - i')},
     let_types={'i': 'i32'})
 
@@ -220,9 +220,9 @@ def member_fn(name, setop):
     return Fn(F, name, impl='Shell', rewrites=TYRW, ret='r',
         requires=[('C06.pre.wf', 'wf(old(self).jobs@)')],
         ensures=[
-            ('C06.%s.wf' % name, 'wf(final(self).jobs@)'),
-            ('C06.%s.absent_unchanged' % name, '!has_gid(old(self).jobs@, gid) ==> final(self).jobs@ == old(self).jobs@ && r.is_none()'),
-            ('C06.%s.whole_view' % name,
+            ('C06+C07.%s.wf' % name, 'wf(final(self).jobs@)'),
+            ('C06+C07.%s.absent_unchanged' % name, '!has_gid(old(self).jobs@, gid) ==> final(self).jobs@ == old(self).jobs@ && r.is_none()'),
+            ('C06+C07.%s.whole_view' % name,
              'has_gid(old(self).jobs@, gid) ==> exists|k: i32| old(self).jobs@.contains_key(k) && #[trigger] old(self).jobs@[k].gid == gid '
              '&& final(self).jobs@.contains_key(k) && same_but(final(self).jobs@, old(self).jobs@, k) '
              '&& final(self).jobs@[k].pids_stopped@ == old(self).jobs@[k].pids_stopped@.%s(pid) '
@@ -230,9 +230,9 @@ def member_fn(name, setop):
              '&& %s && final(self).jobs@[k].is_bg == old(self).jobs@[k].is_bg '
              '&& r == Some(&final(self).jobs@[k])' % (setop, st_k)),
         ],
-        loops={0: Loop(invariant=[SCAN_INV[0], ('C06.inv.oldwf', 'wf(old(self).jobs@)')],
-                       invariant_except_break=SCAN_IEB + SCAN_INV[1:] + [('C06.inv.notfound', 'idx_found == 0')],
-                       ensures=[('C06.inv.member_exit',
+        loops={0: Loop(invariant=[SCAN_INV[0], ('C06+C07.inv.oldwf', 'wf(old(self).jobs@)')],
+                       invariant_except_break=SCAN_IEB + SCAN_INV[1:] + [('C06+C07.inv.notfound', 'idx_found == 0')],
+                       ensures=[('C06+C07.inv.member_exit',
                                  '(i == 65535 && self.jobs@ == old(self).jobs@ && !has_gid(old(self).jobs@, gid) && idx_found == 0) || '
                                  '(1 <= i < 65535 && idx_found == i && old(self).jobs@.contains_key(i) && old(self).jobs@[i].gid == gid '
                                  ' && self.jobs@.contains_key(i) && same_but(self.jobs@, old(self).jobs@, i) && ' + changed + ')')],
@@ -246,9 +246,9 @@ mark_job_member_stopped = member_fn('mark_job_member_stopped', 'insert')
 mark_job_as_running = Fn(F, 'mark_job_as_running', impl='Shell', rewrites=TYRW,
     requires=[('C06.pre.wf', 'wf(old(self).jobs@)')],
     ensures=[
-        ('C06.running.wf', 'wf(final(self).jobs@)'),
-        ('C06.running.absent_unchanged', '!has_gid(old(self).jobs@, gid) ==> final(self).jobs@ == old(self).jobs@'),
-        ('C06.running.whole_view',
+        ('C06+C07.running.wf', 'wf(final(self).jobs@)'),
+        ('C06+C07.running.absent_unchanged', '!has_gid(old(self).jobs@, gid) ==> final(self).jobs@ == old(self).jobs@'),
+        ('C06+C07.running.whole_view',
          'has_gid(old(self).jobs@, gid) ==> exists|k: i32| old(self).jobs@.contains_key(k) && #[trigger] old(self).jobs@[k].gid == gid '
          '&& final(self).jobs@.contains_key(k) && same_but(final(self).jobs@, old(self).jobs@, k) '
          '&& final(self).jobs@[k].pids_stopped@ =~= Set::<i32>::empty() && final(self).jobs@[k].status@ == "Running"@ && final(self).jobs@[k].is_bg == bg '
@@ -259,9 +259,9 @@ mark_job_as_running = Fn(F, 'mark_job_as_running', impl='Shell', rewrites=TYRW,
 mark_job_as_stopped = Fn(F, 'mark_job_as_stopped', impl='Shell', rewrites=TYRW,
     requires=[('C06.pre.wf', 'wf(old(self).jobs@)')],
     ensures=[
-        ('C06.stopped.wf', 'wf(final(self).jobs@)'),
-        ('C06.stopped.absent_unchanged', '!has_gid(old(self).jobs@, gid) ==> final(self).jobs@ == old(self).jobs@'),
-        ('C06.stopped.whole_view',
+        ('C06+C07.stopped.wf', 'wf(final(self).jobs@)'),
+        ('C06+C07.stopped.absent_unchanged', '!has_gid(old(self).jobs@, gid) ==> final(self).jobs@ == old(self).jobs@'),
+        ('C06+C07.stopped.whole_view',
          'has_gid(old(self).jobs@, gid) ==> exists|k: i32| old(self).jobs@.contains_key(k) && #[trigger] old(self).jobs@[k].gid == gid '
          '&& final(self).jobs@.contains_key(k) && same_but(final(self).jobs@, old(self).jobs@, k) '
          '&& final(self).jobs@[k].pids_stopped@ == old(self).jobs@[k].pids_stopped@ && final(self).jobs@[k].status@ == "Stopped"@ && final(self).jobs@[k].is_bg '
@@ -276,18 +276,18 @@ remove_pid_from_job = Fn(F, 'remove_pid_from_job', impl='Shell', ret='r',
                         why='Iterator::position with an equality closure through a shim carrying its std contract')],
     requires=[('C06.pre.wf', 'wf(old(self).jobs@)')],
     ensures=[
-        ('C06.remove.absent_unchanged', '!has_gid(old(self).jobs@, gid) ==> final(self).jobs@ == old(self).jobs@ && r.is_none()'),
-        ('C06.remove.pid_gone_whole_view',
+        ('C06+C07.remove.absent_unchanged', '!has_gid(old(self).jobs@, gid) ==> final(self).jobs@ == old(self).jobs@ && r.is_none()'),
+        ('C06+C07.remove.pid_gone_whole_view',
          'has_gid(old(self).jobs@, gid) ==> exists|k: i32| old(self).jobs@.contains_key(k) && #[trigger] old(self).jobs@[k].gid == gid '
          '&& same_but(final(self).jobs@, old(self).jobs@, k) '
          '&& ((!final(self).jobs@.contains_key(k) && r.is_some() && forall|p: i32| old(self).jobs@[k].pids@.contains(p) ==> p == pid) '
          '    || (r.is_none() && final(self).jobs@.contains_key(k) && removed_one(old(self).jobs@[k].pids@, final(self).jobs@[k].pids@, pid) '
          '        && !final(self).jobs@[k].pids@.contains(pid) && final(self).jobs@[k].pids@.len() > 0 '
          '        && job_after_remove(final(self).jobs@[k], old(self).jobs@[k], pid)))'),
-        ('C06.remove.wf', 'wf(final(self).jobs@)'),
+        ('C06+C07.remove.wf', 'wf(final(self).jobs@)'),
     ],
-    loops={0: Loop(invariant=[SCAN_INV[0]], invariant_except_break=SCAN_IEB + SCAN_INV[1:] + [('C06.inv.rm_flag', '!empty_pids')],
-                   ensures=[('C06.remove.pid_removed_at_loop_exit',
+    loops={0: Loop(invariant=[SCAN_INV[0]], invariant_except_break=SCAN_IEB + SCAN_INV[1:] + [('C06+C07.inv.rm_flag', '!empty_pids')],
+                   ensures=[('C06+C07.remove.pid_removed_at_loop_exit',
                              '(i == 65535 && self.jobs@ == old(self).jobs@ && !has_gid(old(self).jobs@, gid) && !empty_pids) || '
                              '(1 <= i < 65535 && old(self).jobs@.contains_key(i) && old(self).jobs@[i].gid == gid && self.jobs@.contains_key(i) '
                              ' && same_but(self.jobs@, old(self).jobs@, i) && job_after_remove(self.jobs@[i], old(self).jobs@[i], pid) '
